@@ -124,6 +124,9 @@ struct World {
     idle_next: u64,
     coop_exhausted: bool,
     coop_yields_in_poll: u32,
+    /// library yield points passed within the task poll in progress
+    yield_points_in_poll: u32,
+    yield_loop_seen: bool,
     coop_budget_events: u32,
 }
 
@@ -248,6 +251,8 @@ pub fn reset(cfg: WorldCfg) {
             idle_next: 0,
             coop_exhausted: false,
             coop_yields_in_poll: 0,
+            yield_points_in_poll: 0,
+            yield_loop_seen: false,
             coop_budget_events: 0,
         })
     });
@@ -714,7 +719,32 @@ fn nested_env_point() {
 }
 
 /// Hook body for library yield points: returns true if the task is preempted here.
-pub fn yield_hook(_name: &'static str) -> bool {
+pub fn yield_hook(name: &'static str) -> bool {
+    // library code that passes a yield point over and over within ONE poll of its task loops without ever handing
+    // control back (every pass would also add a choice point: the execution would eat memory until it is killed).
+    // Once that is seen, every further yield point suspends the task (without being recorded as a choice), so that
+    // the world runs into its step horizon quickly. (The hook must not panic: the library takes it out of its slot
+    // while it runs.)
+    let looping = try_with(|w| {
+        if w.current.is_none() {
+            return false;
+        }
+        if w.yield_loop_seen {
+            return true;
+        }
+        w.yield_points_in_poll += 1;
+        if w.yield_points_in_poll >= 100_000 {
+            w.yield_loop_seen = true;
+            w.livelocks.push(format!("yield-loop: within ONE poll of a task, library code passed its yield points 100000 times (last: {}): it loops without ever returning or suspending, blocking its executor thread", name));
+            true
+        } else {
+            false
+        }
+    })
+    .unwrap_or(false);
+    if looping {
+        return true;
+    }
     let on = try_with(|w| w.cfg.yields && w.current.is_some()).unwrap_or(false);
     if !on {
         return false;
@@ -903,6 +933,7 @@ fn poll_task(id: TaskId, pos: usize) {
         // a fresh cooperative budget for every task poll
         w.coop_exhausted = false;
         w.coop_yields_in_poll = 0;
+        w.yield_points_in_poll = 0;
         t.fut.take()
     });
     let Some(mut fut) = fut else {
